@@ -210,10 +210,11 @@ fn case_roundtrip(p: &Pat, day: i64, nod: u64, off: i32, acc: &mut Acc) {
         return;
     }
     if p.kind != 1 && has_two_digit_year(&p.text) {
-        // a two-digit year before year -9 is read back as a year of the current century, whose
-        // February need not have 29 days: that text cannot be required to parse
+        // a two-digit year is read back as a year of the current (wall-clock) millennium. For years
+        // before -9 that year's February need not have 29 days, and for "00" it depends on the wall
+        // clock (2000 is a leap year, 1000 and 3000 are not): those texts cannot be required to parse
         let f = ins::decompose(local);
-        if year <= -10 && f.month == 2 && f.dom == 29 {
+        if (year <= -10 || year % 100 == 0) && f.month == 2 && f.dom == 29 {
             return;
         }
     }
@@ -466,7 +467,7 @@ pub fn run(ctx: &Ctx) -> i32 {
     rep.rule = "states = distinct (pattern, value) pairs admitted by the quantifier's side conditions; transitions = real format -> parse -> format chains; parse must succeed, re-formatting must reproduce the string, full patterns must recover instant and offset, absent fields default; non-trivial = round trips of full date+time+zone patterns".into();
     rep.assumptions = vec![
         "the pattern set is generated from lists of date parts, time parts, zone symbols and separators that satisfy the unambiguous-field grammar; narrow names are excluded as the statement says".into(),
-        "two-digit years (yy) do not determine the year: for them only 'parses, and re-formats to the same text' is demanded, in patterns without fields derived from the full year (e, w, D, G), and 29 February of years before -9 is skipped (it is read back into the current century)".into(),
+        "two-digit years (yy) do not determine the year: for them only 'parses, and re-formats to the same text' is demanded, in patterns without fields derived from the full year (e, w, D, G), and 29 February of years before -9 or ending in 00 is skipped (the text is read back into the wall clock's millennium, whose year may be a common year)".into(),
         "derived fields (G, q, w, e) appear only together with the fields that determine them".into(),
     ];
     rep.require(&["reproduced", "full-pattern-instant-recovered", "defaults", "two-digit-year", "lattice-defaults"]);
